@@ -80,7 +80,7 @@ package redisemu
 //@ ensures [C14] fresh.table: asref(dsc.ds.data) >= old(alloc())
 //@ ensures [C14] keyspace: dsc.ds.data.keyspace && dsc.ds.data.owner == dsc.ds && !dsc.ds.data.scratch
 //@ ensures [C19] dirty: dsc.ds.data.dirty
-//@ ensures released: !held
+//@ ensures [C14,C08,C16,C19,C13] released: !held
 
 //@ func dataStoreSet.flushStore
 //@ prop C14
@@ -93,7 +93,7 @@ package redisemu
 //@ ensures [C14] empty: ds.data != nil && ds.data.count == 0
 //@ ensures [C14] fresh.table: asref(ds.data) >= old(alloc())
 //@ ensures [C14] keyspace: dbReady(ds)
-//@ ensures !held
+//@ ensures [C14,C13] released: !held
 
 //@ func dataStoreSet.flushDb
 //@ prop C14
@@ -137,4 +137,4 @@ package redisemu
 //@ loop 2 invariant [C14] caller.ok: caller != nil ==> (dscOK(caller) && lockMode(caller))
 //@ ensures [C14] all.empty: forall j int :: haskey(dss.dbs, j) ==> dss.dbs[j].data != nil && dss.dbs[j].data.count == 0
 //@ ensures [C14] inplace: forall j int :: dss.dbs[j] == old(dss.dbs[j])
-//@ ensures !held
+//@ ensures [C14,C13] released: !held
